@@ -385,6 +385,17 @@ func Walk
   ensures [complete] !whalt() ==> (result == nil && wnode(wlen() - 1) == n && !wenter(wlen() - 1))
   modifies wlen, wnode, wenter, wstat, werr, whalt
 
+// heading levels are 1..6 (C05)
+func NewHeading
+  requires [C05_level] 1 <= level && level <= 6
+  ensures result != nil && fresh(result) && result.Level == level
+  modifies nothing
+// inline text nodes point into the source (C05)
+func NewTextSegment
+  requires [C05_validseg] text.docSeg(v)
+func NewRawTextSegment
+  requires [C05_validseg] text.docSeg(v)
+
 func NewHTMLBlock
   ensures result != nil && fresh(result)
   modifies nothing
